@@ -7,6 +7,7 @@ package main
 // a script blocked inside a channel operation, and senders that run truly in parallel.
 
 import (
+	"strings"
 	"context"
 	"encoding/json"
 	"fmt"
@@ -132,8 +133,28 @@ func c02Stress(n int, outDir string) error {
 		{Name: "two pointers referring to each other", Src: "x = nil; y = nil; p = &x; q = &y; *p = q; *q = p; r = (!p) ?? 0; r", Cap: 1, K: 1, Serve: "none", MayFinish: true},
 		{Name: "nobody serves: blocked from the start", Src: "ch <- 1; ch <- 2; ch <- 3", Cap: 1, K: 3, Serve: "none"},
 	}
+	// a self-referencing pointer (the stock example of a value whose layers never end) in every operand position:
+	// whatever the construct makes of it - a value, an error - the call returns
+	for _, f := range []struct{ name, code string }{
+		{"for-in subject", "for v in p { }"}, {"for-in subject (key, value)", "for k, v in p { }"}, {"switch subject", "switch p {\ncase 1: 1\n}"},
+		{"case value", "switch 1 {\ncase p: 1\n}"}, {"index subject", "p[0]"}, {"slice subject", "p[0:1]"}, {"slice bound", "[1, 2][p:]"}, {"member subject", "p.k"},
+		{"call subject", "p()"}, {"call argument of a Go function", "len(p)"}, {"keys", "keys(p)"}, {"spread", "func(a) { }(p...)"}, {"in right", "1 in p"},
+		{"in left", "p in [1]"}, {"negation", "-p"}, {"bit not", "^p"}, {"comparison", "p == p"}, {"ordering", "p < 1"}, {"string concatenation", "\"s\" + p"},
+		{"list concatenation", "[1] + p"}, {"shift", "1 << p"}, {"ternary", "p ? 1 : 2"}, {"logical and", "p && true"}, {"receive", "<- p"}, {"send", "p <- 1"},
+		{"send operand", "c = make(chan interface, 1); c <- p"}, {"close", "close(p)"}, {"delete", "delete(p, 1)"}, {"make length", "make([]int64, p)"},
+		{"typed store", "t = make([]int64, 1); t[0] = p"}, {"map key", "{p: 1}"}, {"map index", "{1: 2}[p]"}, {"index assignment", "p[0] = 1"},
+		{"member assignment", "p.k = 1"}, {"dereference chain", "***p"}, {"increment", "p++"}, {"compound assignment", "p += 1"}, {"throw", "throw p"},
+		{"conversion builtin", "toInt(p)"}, {"string builtin", "toString(p)"}, {"typed literal element", "[]int64{p}"}, {"go call argument", "go func(a) { }(p)"},
+		{"defer call argument", "func() { defer func(a) { }(p) }()"}, {"return", "func() { return p, p }()"}, {"var", "var a, b = p, p"},
+	} {
+		scs = append(scs, &c02Scenario{Name: "self-referencing pointer: " + f.name + ", in an endless loop", Cap: 1, K: 1, Serve: "none",
+			Src: "x = nil; p = &x; *p = p; for { try { " + f.code + " } catch e { } }"})
+	}
 	for _, sc := range scs {
 		for t := 0; t < n; t++ {
+			if strings.HasPrefix(sc.Name, "self-referencing pointer: ") && t >= 3 {
+				break
+			}
 			sc.Trials++
 			if msg := c02Trial(sc, t); msg != "" {
 				sc.Bad++
